@@ -44,15 +44,25 @@ func init() {
 					js = append(js, sym.Job{Harness: "VH_C03_withcrc", Params: map[string]int{"which": which, "L": l}})
 				}
 			}
+			// frames re-emitted from values that came off the wire (CRC abstraction with refinement)
+			rl := rng(4, 30)
+			if th {
+				rl = append(rng(4, 64), 255, 256, 257, 258)
+			}
+			for which := 0; which < 2; which++ {
+				for _, l := range rl {
+					js = append(js, sym.Job{Harness: "VH_C03_reemit", Params: map[string]int{"which": which, "L": l}, AbstractCRC: true})
+				}
+			}
 			return js
 		},
 		Bounds: map[string]string{
-			"quick":    "CRC step lemma: arbitrary 16-bit state x arbitrary next byte at every index of buffers of 1,2,3 bytes (no bound on message length for the lemma itself); whole-function comparison for lengths 0..1 (impl-vs-table equivalence over 2 or more symbolic bytes does not finish within the quick time limit); 21 RTU frame encoders with payload lengths {0,1,2,3,250,251,252}; CRC-verifying parsers on every frame of length 0..14 with every trailer value",
-			"thorough": "step lemma on buffers of 1,2,3,7,64,256 bytes; whole-function lengths 0..2; encoder payload lengths 0..253; CRC-verifying parsers on lengths 0..40 and 255..258",
+			"quick":    "CRC step lemma: arbitrary 16-bit state x arbitrary next byte at every index of buffers of 1,2,3 bytes (no bound on message length for the lemma itself); whole-function comparison for lengths 0..1 (impl-vs-table equivalence over 2 or more symbolic bytes does not finish within the quick time limit); 21 RTU frame encoders with payload lengths {0,1,2,3,250,251,252}; CRC-verifying parsers on every frame of length 0..14 with every trailer value; every accepted frame of length 4..30 re-encoded from the parsed value ends with the CRC of its preceding bytes (CRC abstraction + refinement)",
+			"thorough": "step lemma on buffers of 1,2,3,7,64,256 bytes; whole-function lengths 0..2; encoder payload lengths 0..253; CRC-verifying parsers on lengths 0..40 and 255..258; re-encoding of accepted frames of lengths 4..64 and 255..258",
 		},
 		Outside:     []string{"whole-function equivalence beyond the listed lengths rests on the induction step (k=1 induction over the byte loop, structural: the loop carries exactly (crc, index))", "CRC-verifying parsers on frame lengths not listed"},
 		Assumptions: []string{"induction principle over the byte loop of CRC16 (meta-argument); the engine checks that the loop header carries exactly two values"},
 		TimeoutMS:   240000, // the step lemma needs 2-5 s per query on an idle machine; keep a wide margin under load
-		MinCovers:   []string{"selfcheck", "step", "exit", "whole", "frame", "bad-crc", "good-crc", "too-short"},
+		MinCovers:   []string{"selfcheck", "step", "exit", "whole", "frame", "bad-crc", "good-crc", "too-short", "re-emitted"},
 	})
 }
